@@ -102,4 +102,46 @@ the state of `Ctx.empty` / `Ctx.emptyWithBuiltins`; see AgreeFnContext) -/
 theorem fn_EmptyContext_default_agree : Gen.EmptyContext.default = () := rfl
 theorem fn_EmptyContextWithBuiltinFunctions_default_agree : Gen.EmptyContextWithBuiltinFunctions.default = () := rfl
 
+/-! ### phase 7: `Display for Value` (src/value/display.rs) = `Value.display`
+
+`Gen.Value.fmt v` is the text `fmt` appends to the formatter. The `once`-flag loop is identified with the
+Model's `displayList` through `sepList` (separator before every element but the first); the hypothesis of
+`foldFor_sep` (one iteration = optional separator, then the element) is discharged by executing the generated
+loop body, whatever its shape. -/
+def sepList : Bool → List Value → Str
+  | _, [] => []
+  | once, v :: r => (if once then cl!", " else []) ++ v.display ++ sepList true r
+
+theorem sepList_false_eq (l : List Value) : sepList false l = Value.displayList l := by
+  induction l with
+  | nil => simp [sepList, Value.displayList]
+  | cons v r ih =>
+    cases r with
+    | nil => simp [sepList, Value.displayList]
+    | cons w rest =>
+      rw [Value.displayList, ← ih]
+      simp [sepList, List.append_assoc]
+
+theorem foldFor_sep {t : List Value} (f : {x // x ∈ t} → Str × Bool → Str × Bool)
+    (hf : ∀ a out once, f a (out, once) = (out ++ (if once then cl!", " else []) ++ a.1.display, true))
+    (l : List {x // x ∈ t}) (out : Str) (once : Bool) :
+    (Rs.foldFor l (out, once) f).1 = out ++ sepList once (l.map Subtype.val) := by
+  induction l generalizing out once with
+  | nil => simp [Rs.foldFor, sepList]
+  | cons a l ih => rw [Rs.foldFor, hf, ih]; simp [sepList, List.append_assoc]
+
+theorem fn_Value_fmt_agree (v : Value) : Gen.Value.fmt v = Value.display v := by
+  have IH : ∀ t, v = .tuple t → ∀ x ∈ t, Gen.Value.fmt x = x.display := fun t ht x hx => fn_Value_fmt_agree x
+  cases v with
+  | tuple t =>
+    rw [Gen.Value.fmt]
+    simp only [Rs.push_str_def, List.nil_append]
+    rw [foldFor_sep _ _ _ _ _, List.attach_map_subtype_val, sepList_false_eq]
+    · simp [Value.display]
+    · rintro ⟨a, ha⟩ out once
+      cases once <;> simp [IH t rfl a ha]
+  | _ => simp [Gen.Value.fmt, Value.display, Rs.to_string, Rs.ToString.to_string]
+termination_by sizeOf v
+decreasing_by subst ht; exact Rs.value_lt hx
+
 end Evalexpr.AgreeFn
